@@ -360,7 +360,7 @@ func genC17(r *rng, tier string, res *Result) {
 			}
 		}
 	}
-	runCases(res, cases, impls, true)
+	runCases(res, cases, impls, !noModel)
 	for i := 0; i < len(cases) && i < 2; i++ {
 		res.sample(cases[i], 25)
 	}
